@@ -42,7 +42,10 @@ EvPeer ==
                        \* the connection itself failed (garbage, disconnect, silence) before the message content was due
                        !.xearly = @ \/ (E.act # "code" /\ E.stage \notin {"eod", "rset", "quit"}),
                        \* something other than the refusal of a recipient went wrong (before the result was set)
-                       !.nonrcpt = @ \/ (f # {} /\ E.stage \notin {"rcpt", "quit", "rset"})
+                       \* (what the downstream says to DATA after it has refused every recipient - typically 554 "no valid
+                       \*  recipients" - is a consequence of the refusals, not another failure)
+                       !.nonrcpt = @ \/ (f # {} /\ E.stage \notin {"rcpt", "quit", "rset"}
+                                           /\ ~(E.stage = "data" /\ E.act = "code" /\ R.acc = {}))
                                      \/ (f # {} /\ E.stage = "rcpt" /\ E.act # "code")]
   /\ bad' = bad
 Rcpts == 0..(R.nrcpt - 1)
